@@ -348,6 +348,7 @@ def render(tree, names, style=None):
     (names[i] is variable i).  style: None or a dict with
       'minus': True  -> write '- 2.0*x1' instead of '+ -2.0*x1'
       'unit':  True  -> write 'x1' instead of '1.0*x1' (and '-x1' for -1.0)
+      'opspace': True -> blanks around the * / ** of products, quotients and powers
     Linear forms print all their terms, including zero coefficients; a zero constant
     is omitted unless it is the only term."""
     style = style or {}
@@ -394,9 +395,10 @@ def render(tree, names, style=None):
     if k in ('mul', 'div'):
         # a leading negative literal needs no parentheses: -2.0/x1 == (-2.0)/x1 exactly
         left = fmt_num(tree[1][1]) if tree[1][0] == 'const' else _wrap(tree[1], names, 3, style)
-        return '%s%s%s' % (left, '*' if k == 'mul' else '/', _wrap(tree[2], names, 4, style))
+        sp = ' ' if style.get('opspace') else ''      # 'x0 / x1' and 'x0/x1' are the same text to the parser
+        return '%s%s%s%s%s' % (left, sp, '*' if k == 'mul' else '/', sp, _wrap(tree[2], names, 4, style))
     if k == 'pow':
-        return '%s**%s' % (_wrap(tree[1], names, 5, style), fmt_num(tree[2]))
+        return ('%s ** %s' if style.get('opspace') else '%s**%s') % (_wrap(tree[1], names, 5, style), fmt_num(tree[2]))
     if k in ('abs', 'sqrt', 'sin', 'cos', 'exp', 'tanh'):
         return '%s(%s)' % (k, render(tree[1], names, style))
     if k in ('min', 'max'):
